@@ -274,7 +274,9 @@ var validTags = []func(r *RNG) string{
 	func(r *RNG) string {
 		return "XI:i:" + r.PickStr([]string{"-1", "-128", "-129", "-32768", "-32769", "-2147483648", "255", "256", "65535", "65536", "4294967295", "+7", "0", "-0"})
 	},
-	func(r *RNG) string { return "MD:Z:" + r.PickStr([]string{"10A5^AC6", "0", "151", "3^T0A1", "a b:c", "*"}) },
+	func(r *RNG) string {
+		return "MD:Z:" + r.PickStr([]string{"10A5^AC6", "0", "151", "3^T0A1", "a b:c", "*"})
+	},
 	func(r *RNG) string { return "XS:A:" + string(byte(r.Range(33, 126))) },
 	func(r *RNG) string {
 		return "XF:f:" + r.PickStr([]string{"1.5", "-0.25", "3", "1e-3", "-2.5E+10", "0", "-0", ".5", "5.", "1e10", "3.4028235e38", "1e-45", "7e-46", "1.17549435e-38",
